@@ -34,12 +34,14 @@ const (
 	LInRefused  = 111 // (4 0 111 src offset)          In returned EventSeqIDError
 	LIdleTimout = 112 // (3 p 112 actionIdx streamIdx) a fake action received a time-out event while holding nothing
 	LActionSaw  = 113 // (3 p 113 actionIdx streamIdx seq kind)
+	LProbe      = 114 // (4 0 114 latencyMs boundMs src offset) time from In() to the input commit of a probe event
 )
 
 type rawLabel struct {
 	obj  any
 	kind int
 	a    [4]int64
+	t    time.Time
 }
 
 type caseLog struct {
@@ -50,7 +52,7 @@ type caseLog struct {
 
 func (l *caseLog) add(obj any, kind int, a, b, c, d int64) {
 	l.mu.Lock()
-	l.labels = append(l.labels, rawLabel{obj, kind, [4]int64{a, b, c, d}})
+	l.labels = append(l.labels, rawLabel{obj, kind, [4]int64{a, b, c, d}, time.Now()})
 	l.mu.Unlock()
 }
 
@@ -443,6 +445,13 @@ func RunCase(cs hx.Sx) hx.Sx {
 	}
 	var wg sync.WaitGroup
 	var accepted atomic.Int64
+	type probe struct {
+		src, off int64
+		t0       time.Time
+		bound    int64
+	}
+	var probes []probe
+	var probeMu sync.Mutex
 	for _, f := range feeders {
 		ops := hx.Items(f)
 		wg.Add(1)
@@ -466,6 +475,24 @@ func RunCase(cs hx.Sx) hx.Sx {
 					}
 				case 1:
 					time.Sleep(time.Duration(hx.Int(o[1])) * time.Millisecond)
+				case 4: // (4 src offset #json boundMs): a probe event; its In-to-commit latency is reported
+					src, off, data := uint64(hx.Int(o[1])), hx.Int(o[2]), hx.Bytes(o[3])
+					probeMu.Lock()
+					probes = append(probes, probe{int64(src), off, time.Now(), hx.Int(o[4])})
+					probeMu.Unlock()
+					if p.In(pipeline.SourceID(src), "verif", pipeline.NewOffsets(off, nil), data, false, nil) != pipeline.EventSeqIDError {
+						accepted.Add(1)
+					}
+				case 5: // (5 src firstOffset #json durMs gapUs): keep feeding one stream for durMs
+					src, off, data := uint64(hx.Int(o[1])), hx.Int(o[2]), hx.Bytes(o[3])
+					end := time.Now().Add(time.Duration(hx.Int(o[4])) * time.Millisecond)
+					for time.Now().Before(end) {
+						off++
+						if p.In(pipeline.SourceID(src), "verif", pipeline.NewOffsets(off, nil), data, false, nil) != pipeline.EventSeqIDError {
+							accepted.Add(1)
+						}
+						time.Sleep(time.Duration(hx.Int(o[5])) * time.Microsecond)
+					}
 				case 2:
 					select {
 					case <-gateHit:
@@ -510,7 +537,13 @@ func RunCase(cs hx.Sx) hx.Sx {
 			break
 		}
 	}
-	time.Sleep(5 * time.Millisecond)
+	// let the woken processors settle: no label (heartbeat ticks aside) for 40 ms
+	for settle, last := time.Now(), progress(); time.Since(settle) < 40*time.Millisecond && time.Now().Before(hardCap); {
+		time.Sleep(5 * time.Millisecond)
+		if n := progress(); n != last {
+			last, settle = n, time.Now()
+		}
+	}
 	inUse, waiters := p.VerifPoolInUse(), p.VerifPoolWaiters()
 	log.add(p, LQuiescent, inUse, waiters, accepted.Load(), 0)
 	if inUse != 0 {
@@ -532,10 +565,26 @@ func RunCase(cs hx.Sx) hx.Sx {
 		log.add(p, LStuck, 4, 0, 0, 0)
 	}
 
+	// probe latencies: In() -> input commit of that (source, offset)
+	probeMu.Lock()
+	for _, pr := range probes {
+		lat := int64(1 << 30)
+		log.mu.Lock()
+		for _, l := range log.labels {
+			if l.kind == pipeline.VtInputCommit && l.a[2] == pr.off && l.a[3] == pr.src {
+				lat = l.t.Sub(pr.t0).Milliseconds()
+				break
+			}
+		}
+		log.mu.Unlock()
+		log.add(p, LProbe, lat, pr.bound, pr.src, pr.off)
+	}
+	probeMu.Unlock()
+
 	// canonicalise: pointers -> indices of first appearance, per object kind
 	log.mu.Lock()
 	defer log.mu.Unlock()
-	idx := map[int]map[int64]int{1: {}, 2: {}, 3: {}, 4: {}, 0: {}}
+	idx := map[int]map[int64]int{1: {}, 2: {}, 3: {}, 4: {}, 5: {}, 0: {}}
 	objIndex := func(kind int, id int64) int {
 		if id == 0 {
 			return -1
